@@ -66,6 +66,31 @@ def run(ctx):
     # "the documented IPS transform": reward/probability reaches learn and the row as computed -- the reward objects keep what they are given (0 is a value)
     r15_reward_constructors(ctx)
     r16_ips_per_interaction(ctx)
+    r17_unbatch_decision(ctx)
+
+
+def r17_unbatch_decision(ctx, rule="C06.R17"):
+    """C06.R10 shows that the learner's outputs carry the batch marker in every batched configuration; the final Unbatch must find the marker wherever it sits
+    (the first recorded key is predict_time, a plain float, whenever 'time' is recorded)."""
+    ctx.rule(rule, "Unbatch splits a row as soon as ANY of its values is a batch: the guard of the split is the list of batched keys collected over all items of the first "
+                   "row (or any(...) over all values), never a test of one position")
+    EF_ = "coba/environments/filters.py"
+    fn = ctx.fn(EF_, "Unbatch.filter")
+    calls = [c for c in ast.walk(fn) if isinstance(c, ast.Call) and call_tail(c) == "_unbatch"]
+    ctx.floor(rule, "_unbatch calls in Unbatch.filter", len(calls), 1)
+    for c in calls:
+        gs = [t for t, pol in guards_of(enclosing_stmt(c), fn) if pol]
+        ok = False
+        for t in gs:
+            vals = [t] if not isinstance(t, ast.Name) else assigned_value(fn, t.id)
+            for v in vals:
+                if isinstance(v, (ast.ListComp, ast.GeneratorExp, ast.SetComp)) and len(v.generators) == 1 and call_tail(v.generators[0].iter) in ("items", "values") \
+                        and any(isinstance(i, ast.Call) and call_name(i) == "is_batch" for i in v.generators[0].ifs):
+                    ok = True
+                if isinstance(v, ast.Call) and call_name(v) == "any" and v.args and any(isinstance(y, ast.Call) and call_tail(y) in ("values", "items") for y in ast.walk(v.args[0])) \
+                        and any((isinstance(y, ast.Name) and y.id == "is_batch") for y in ast.walk(v.args[0])):
+                    ok = True
+        ctx.ob(rule, EF_, "Unbatch.filter", c, "the decision to split quantifies over every value of the row", ok, detail={"guards": [unparse(t) for t in gs]})
 
 
 def r16_ips_per_interaction(ctx, rule="C06.R16"):
@@ -702,6 +727,8 @@ def r6_wiring(ctx):
 
 
 CONTROLS = [
+    ("Unbatch looks at the first value only", "coba/environments/filters.py", M.replace_expr("Unbatch.filter", "batched_keys", "is_batch(next(iter(first.values()), None))", nth=0) if False else
+        M.replace_stmt("Unbatch.filter", lambda st: isinstance(st, ast.If) and ast.unparse(st.test) == "batched_keys", "if is_batch(next(iter(first.values()), None)):\n    yield from self._unbatch(interactions, batched_keys)\nelse:\n    yield from interactions"), "C06.R17"),
     ("IPS decides from the first interaction whether probabilities exist", "coba/environments/filters.py", M.chain(
         M.insert_before("OpeRewards.filter", lambda st: isinstance(st, ast.If), "has_prob = True"),
         M.replace_expr("OpeRewards.filter", "interaction.get('probability') or 1", "has_prob and interaction.get('probability') or 1")), "C06.R16"),
